@@ -839,6 +839,15 @@ def run(prog, rep, tier='quick', config='default'):
         owner = prog.owner_of(fn)
         no_callers = (config != 'default' and not owner.name.startswith('<') and
                       not [x for x in prog.callers.get(owner.name, []) if not mir.is_testsupport(x.fn.name)])
+        if config != 'default' and owner.name.startswith('<') and not no_callers:
+            # an operator / trait impl: unreached when no product call resolves to it and no product call of that trait method is
+            # left unresolved (a generic call could still dispatch to it)
+            mt = re.match(r'^<.+ as (.+)>::(\w+)$', owner.name)
+            if mt and not [x for x in prog.callers.get(owner.name, []) if not mir.is_testsupport(x.fn.name)]:
+                generic_calls = [x for g2 in prog.product_fns() for x in g2.calls
+                                 if x.callee in ('%s::%s' % (mt.group(1), mt.group(2)),) or (x.callee.startswith('<') and x.callee.endswith('>::' + mt.group(2)) and
+                                                                                             re.match(r'^<[A-Z]\w* as ', x.callee) and mt.group(1) in x.callee)]
+                no_callers = not generic_calls
         if (owner.name not in reach and fn.name not in reach) or no_callers:
             rep.info('R5a', base + '|unreached', where=c.where(), fn=fn.name, detail='function is not reachable from any front end: not judged')
             continue
